@@ -31,6 +31,7 @@ RULE = (
     'creation (max_steps reported by the solution); nothing a thread or a copied context does changes what another '
     'one reads. non-trivial = nesting depth >= 2 and (an exception exit or an inverse applied after its block was '
     'left), or >= 2 thread switches while two threads have open blocks. distinct = distinct event sequences.'
+    ' Also: an exception raised by entering or leaving a properly nested block is itself a violation (key block-enter-or-exit-raised).'
     ' Also: the same operator object is inverted again and again (.I, .inverse(), InverseOperator(op)), under different configurations and from different threads: every inverse carries the configuration active at its own creation.'
     ' Also: a third option set holding an operator-valued option (a preconditioner), compared after every event with what the caller put into the dict.'
 )
@@ -121,6 +122,8 @@ class Worker(threading.Thread):
         r = self.outbox.get(timeout=timeout)
         if isinstance(r, tuple) and r and r[0] == '__error__':
             raise r[1]
+        if isinstance(r, tuple) and r and r[0] == '__violation__':
+            raise Violation('block-enter-or-exit-raised', r[1])
         return r
 
     def run(self):
@@ -180,6 +183,11 @@ class Worker(threading.Thread):
                             raise _Boom()
                 except _Boom:
                     pass
+                except Exception as e:  # noqa: BLE001
+                    # entering or leaving a properly nested block must not raise (nothing else can raise here: the
+                    # nested interpreter reports the errors of its own events itself)
+                    self.outbox.put(('__violation__', f'{self.name} depth {depth}: entering/leaving a Config block raised {type(e).__name__}: {str(e)[:160]}'))
+                    continue
                 if r == 'stop':
                     return 'stop'
                 self.outbox.put('exited')
